@@ -105,8 +105,9 @@ def r1_cache_key(a, tier):
                      f'({norm(sub.slice) if not isinstance(sub.slice, ast.Name) else "key"}) does not depend on it: a later call '
                      f'with a different `{p}` gets the model compiled for the earlier one', f'{fn.module.relpath}:{st.lineno}')
     # id() components
+    key_vars = {x.id for _, sub in stores for x in ast.walk(sub.slice) if isinstance(x, ast.Name)}
     for n in walk_no_defs(fn.node):
-        if isinstance(n, ast.Assign) and isinstance(n.targets[0], ast.Name) and n.targets[0].id == 'key':
+        if isinstance(n, ast.Assign) and isinstance(n.targets[0], ast.Name) and n.targets[0].id in key_vars:
             for c in ast.walk(n.value):
                 if isinstance(c, ast.Call) and isinstance(c.func, ast.Name) and c.func.id == 'id' and c.args:
                     obj = norm(c.args[0])
@@ -146,12 +147,12 @@ def r2_write_through(a, tier):
             for t in n.targets:
                 if isinstance(t, ast.Attribute) and isinstance(t.value, ast.Name) and t.value.id in cached_vars:
                     rep.add({'write': norm(n)})
-                    rep.fail(fn.qualname, f'write:{norm(t)}', f'`{norm(n)}` writes to the model object shared through the compile '
+                    rep.fail(fn.qualname, f'write:.{t.attr}', f'`{norm(n)}` writes to the model object shared through the compile '
                              f'cache: models returned by earlier compile() calls with the same key change behaviour', f'{fn.module.relpath}:{n.lineno}')
         if isinstance(n, ast.Call) and isinstance(n.func, ast.Attribute) and isinstance(n.func.value, ast.Name) \
                 and n.func.value.id in cached_vars and n.func.attr in mutators:
             rep.add({'mutating_call': norm(n)})
-            rep.fail(fn.qualname, f'mutate:{norm(n.func)}', f'`{norm(n)}` re-initialises the model object shared through the compile '
+            rep.fail(fn.qualname, f'mutate:.{n.func.attr}', f'`{norm(n)}` re-initialises the model object shared through the compile '
                      f'cache (also while another thread may be parsing with it)', f'{fn.module.relpath}:{n.lineno}')
     return rep
 
